@@ -97,7 +97,7 @@ Theorem tstep_ledger : forall (w w' : wN) op o, ledger_inv w -> top_ok op -> tst
   ledger_inv w' /\ forall k, ~ In k (tidx op) -> ob w' k = ob w k.
 Proof.
   intros w w' op o Hl Hok H.
-  destruct op as [i n|i j|i j|i j|i j|i l|i l|i c|i j|i l|i l|i j|i l|i l|i|i|i|i n|i idx|i c idx|i n c|i l|i n|i n|i|i|i];
+  destruct op as [i n|i j|i j|i j|i j|i l|i l|i c|i j|i l|i l|i j|i l|i l|i|i|i|i n|i idx|i c idx|i n c|i l|i n|i n|i|i|i|i|i];
     cbn [tstep top_ok] in *.
   - (* TNew *)
     apply bind_ok in H as (h1 & E1 & H). destruct (t_alloc_obj h1 n) as (h2, o2) eqn:E2. injection H as <- <-.
@@ -212,4 +212,8 @@ Proof.
   - (* TInsertNull *)
     apply bind_ok in H as (w1 & E1 & H). injection H as <- <-.
     destruct (t_insert_null_ledger w w1 i Hl E1) as (Hl1 & Hf1). split; [assumption|frame_tac].
+  - (* TIter: read only *)
+    apply bind_ok in H as (c0 & _ & H). same_world H Hl.
+  - (* TStreamOut: read only *)
+    apply bind_ok in H as (c0 & _ & H). same_world H Hl.
 Qed.
